@@ -166,6 +166,10 @@ def _worker(w, W, indices, engine, prop, master_seed, out_fd, n_samples, deadlin
                 twins = fork_call(twin, wall_s=45 + 4 * K)
                 for r, t in zip(recs, twins):
                     mod.compare_twin(r, t)
+            if len(recs) >= 2 and getattr(mod, "needs_pristine_reference", lambda p_: False)(prop):
+                last_seed = seeds[len(recs) - 1]
+                ref = fork_call(lambda: mod.pristine_reference(mod.plan_run(last_seed, prop)), wall_s=45 + 4 * K)
+                mod.compare_pristine(recs[-1], ref)
             for r, i, seed in zip(recs, chunk, seeds):
                 r["i"], r["seed"] = i, seed
             # the plan is needed for replay only when something was found
